@@ -435,35 +435,50 @@ def item_ranges(text):
 
 
 def add_canaries(text):
-    """append `ensures false` to every fn that has a body and a requires/ensures section or is a proof fn:
-    used to detect contradictory preconditions (every such fn must then FAIL)."""
-    out = []
-    lines = text.split("\n")
-    ranges = item_ranges(text)
-    ins = {}
-    for (name, l1, l2) in ranges:
-        # find the line of the body-opening brace: first line >= l1 whose stripped text == "{"
-        for k in range(l1 - 1, l2):
-            if lines[k].strip() == "{":
-                ins[k] = name
-                break
+    """insert `assert(false);` as the first statement of every non-spec fn body: with satisfiable
+    preconditions each such fn must then FAIL; one that still verifies has contradictory requires."""
+    mask = _code_mask(text)
+    inserts = []
     names = []
-    for k, l in enumerate(lines):
-        if k in ins:
-            hdr = "\n".join(lines[max(0, k - 60):k])
-            # look back within this item only
-            item_l1 = [r for r in ranges if r[0] == ins[k]][0][1]
-            hdr = "\n".join(lines[item_l1 - 1:k])
-            if re.search(r"\bspec\s+fn\b", hdr):
-                out.append(l)
-                continue
-            if re.search(r"\bensures\b", hdr):
-                out.append("        , false // CANARY")
-            else:
-                out.append("        ensures false // CANARY")
-            names.append(ins[k])
-        out.append(l)
-    return "\n".join(out), names
+    impl_ranges = []
+    for m in re.finditer(r"^impl(?:<[^>{]*>)?\s+(\w+)[^{]*\{", text, re.M):
+        if mask[m.start()]:
+            o = m.end() - 1
+            impl_ranges.append((m.group(1), o, _match_paren(text, o)))
+    for m in re.finditer(r"\bfn\s+(\w+)\b", text):
+        if not mask[m.start()]:
+            continue
+        pos = m.start()
+        ls = text.rfind("\n", 0, pos) + 1
+        if re.search(r"\bspec\b", text[ls:pos]):
+            continue
+        depth = 0
+        body_open = None
+        for j, c in _code_positions(text[pos:]):
+            k = pos + j
+            if c in "([":
+                depth += 1
+            elif c in ")]":
+                depth -= 1
+            elif c == "{" and depth == 0:
+                body_open = k
+                break
+            elif c == ";" and depth == 0:
+                break
+        if body_open is None:
+            continue
+        owner = None
+        for (ty, a_, b_) in impl_ranges:
+            if a_ < pos < b_:
+                owner = ty
+        if pos > text.find("} // verus!") >= 0:
+            continue
+        inserts.append(body_open + 1)
+        names.append((owner + "::" if owner else "") + m.group(1))
+    out = text
+    for k in sorted(inserts, reverse=True):
+        out = out[:k] + " assert(false); /* CANARY */ " + out[k:]
+    return out, names
 
 
 def run_verus(path, timeout=600):
@@ -591,10 +606,14 @@ def run_units(prop, units, tiers, log, only=None):
         canary = None
         if not failed_items:
             ctext, cnames = add_canaries(text)
-            cpath = os.path.join(outdir, u.name + ".canary.rs")
+            cpath = os.path.join(outdir, u.name + "_canary.rs")
             open(cpath, "w").write(ctext)
             cjs, _, cse, cwall = run_verus(cpath)
             cbd = breakdown(cjs) if cjs else {}
+            if not cbd:
+                entry.update(status="undecided", reason="canary run produced no per-function result: " + str(cse)[-300:].replace("\n", " | "))
+                res[u.name] = entry
+                continue
             vacuous = [n for n in cnames if cbd.get(n, {}).get("success", True)]
             canary = {"functions": cnames, "vacuous": vacuous, "wall_s": round(cwall, 2)}
             os.unlink(cpath)
